@@ -62,7 +62,7 @@ def check(pid, tier, seed, replay=None):
                     continue
                 pr = byid[e["id"]]
                 je = jout.get(e["id"], {})
-                e["ikeys"] = cborproj.ikeys(e.get("item"))
+                e["ikeys"] = cborproj.ikeys(e.get("item"), opaque=set(pr.get("opaque") or ()) | set(pr.get("opaqueel") or ()))
                 e.setdefault("itemerr", "")
                 e.setdefault("heads", [])
                 e.setdefault("decerr", "")
